@@ -21,10 +21,20 @@ CFG_NAMES = sorted(CONFIGS)
 _cfg_paths = {}
 
 
+_joint_cache = {}
+
+
 def cfg_text(name):
-    """Curated config, or 'opt:<name>=<value>' for a single-option config."""
+    """Curated config, 'opt:<name>=<value>' for a single-option config, or 'joint:<i>' for member i of the joint-draw universe."""
     if name.startswith('opt:'):
         return name[4:].replace('=', ' = ', 1) + '\n'
+    if name.startswith('joint:'):
+        if name not in _joint_cache:
+            from .. import registry, cfggen, build as _b
+            opts = registry.options(_b.binary('asan'))
+            pool = [o for o in opts if o.cls not in ('debug', 'file_inserting') and o.type != 'string']
+            _joint_cache[name] = cfggen.text(cfggen.joint(opts, fixed_rng(PROP, name), pool=pool))
+        return _joint_cache[name]
     return CONFIGS[name]
 
 
@@ -68,7 +78,7 @@ def _norm_msg(err):
     return s[:100]
 
 
-def judge(res, quiet):
+def judge(res, quiet, source=None):
     """-> (kind, detail) or None."""
     if res.wall_timeout:
         return ('inconclusive', '')
@@ -82,10 +92,13 @@ def judge(res, quiet):
     if res.status not in run.DOCUMENTED_STATUS:
         return ('status', 'exit %d' % res.status)
     if res.status != 0:
-        if len(res.stdout) > 0:
-            return ('stdout-on-error', 'exit %d: %s' % (res.status, _norm_msg(res.stderr)))
+        if len(res.stdout) > 0 and source is not None:
+            # "no part of the source has been written to standard output": a line of the source (>= 6 non-blank characters) found in stdout
+            lines = {l.strip() for l in source.split(b'\n') if len(l.strip()) >= 6}
+            if any(l.strip() in lines for l in res.stdout.split(b'\n')):
+                return ('stdout-on-error', 'exit %d: %s' % (res.status, _norm_msg(res.stderr)))
         if not quiet and not _norm_msg(res.stderr):
-            return ('no-diagnostic', 'exit %d' % res.status)
+            return ('no-diagnostic', 'exit %d%s' % (res.status, ' (message on stdout)' if res.stdout.strip() else ''))
     return None
 
 
@@ -105,7 +118,7 @@ def _case(t):
             with open(src, 'wb') as f:
                 f.write(data)
             res = run.run(b, args + ['-f', src], cwd=d, kind='asan')
-        v = judge(res, quiet)
+        v = judge(res, quiet, data)
         locus = None
         if v and v[0] in ('hang', 'signal'):
             # confirm on the plain binary and take the stack there
@@ -198,6 +211,13 @@ def build_cases(ctx):
             lst = sr.sample(lst, 20000)
         for data, lang, cfgname in lst:
             add('tailopt-' + fam, data, lang, cfgname, 'file')
+    # universe G: generated valid programs (C, C++, Java, Objective-C; hostile layout) under joint draws over all option classes
+    from .c01 import make_program
+    GEN_U = 40000
+    ctx.extra['generated_universe'] = GEN_U
+    for i in sr.sample(range(GEN_U), 500 if quick else 8000):
+        lang, src = make_program(i % 20000)
+        add('gen%d' % i, src, {'OC': 'OC'}.get(lang, lang), 'joint:%d' % i, 'file')
     # universe 1: every line-boundary truncation of every corpus file
     pool = []
     for rel, lang in files:
